@@ -81,11 +81,18 @@ def history_oracle(rep, cases, opts_of, rundir, profiles=("debug",), on_result=s
                 on_result(label, small, r2)
             shutil.rmtree(d, ignore_errors=True)
             p2 = first_problem(r2) or p
-            rep.violation(describe_problem(label + " [" + prof + "]", p2),
+            # a history on which ONLY the engine model and the library's pages differ (every call still equals the reference,
+            # every committed file is well-formed with the reference's contents) is a broken correspondence, not a failing
+            # input: the property was not seen to fail on it
+            allp = (r2.get("diffs", []) + r2.get("checks_bad", [])) if first_problem(r2) else (r.get("diffs", []) + r.get("checks_bad", []))
+            corr_only = bool(allp) and all(q[2] == "identical pages" for q in allp) and not r2.get("error")
+            rep.violation(describe_problem(label + " [" + prof + "]", p2) +
+                          (" -- correspondence model/Engine.v <-> library no longer checks; no call result and no committed file deviates from the reference on this history" if corr_only else ""),
                           dict(kind="history", property=rep.prop, label=label, profile=prof, opts=o,
                                failure=dict(index=p2[0], command=p2[1], expected=p2[2], actual=p2[3]),
                                history=small.split("\n"),
-                               how="./check %s --replay <this file>" % rep.prop))
+                               broken_correspondence="coq/model/Engine.v vs the library's committed pages (tools/vlib.py engine_corr)" if corr_only else None,
+                               how="./check %s --replay <this file>" % rep.prop), no_input=corr_only)
     return failed
 
 
